@@ -18,6 +18,7 @@ import json
 import re
 
 from . import wire
+from .c10_worker import apply_edits, has_dict, mk_key, plain_dict, step_dict
 from .core import InfraError
 
 DRIVEN = {
@@ -115,6 +116,52 @@ def observed_widths(text, via):
     return [len(s) - 2 for s in top[1:-1].split("┬")[1:]]
 
 
+# ----------------------------------------------------------------------------- dictionaries with keys that are not text
+
+
+def key_id(k):
+    """What a dictionary compares a key with when a field name (an exact str) is looked up: the plain string the key is
+    equal to (same hash, `==`), or None when it is equal to no string."""
+    if isinstance(k, str):
+        s = str.__str__(k)
+        try:
+            if {k: True}.get(s) is True:
+                return s
+        except Exception:
+            pass
+    return None
+
+
+def model_items(data):
+    """A dictionary as the model takes it: [[ident, exact, isstr, text, value], …] -- `ident`: the plain string the key
+    equals (what a lookup of a field name finds) or the number of the key among those equal to no string; `exact`:
+    `type(key) is str`; `isstr`: `isinstance(key, str)`; `text`: `str(key)`."""
+    out = []
+    for n, (k, v) in enumerate(data.items()):
+        s = key_id(k)
+        out.append([s if s is not None else n, type(k) is str, isinstance(k, str), str(k), v])
+    return out
+
+
+def key_classes(data, fields, hit):
+    """Measured distribution of the keys of a dictionary handed to a row class with the given fields."""
+    if all(type(k) is str for k in data):
+        hit("site:keys:all-text")
+        return
+    hit("site:keys:some-not-text")
+    texts = {}
+    for k in data:
+        texts.setdefault(str(k), []).append(k)
+        if type(k) is not str:
+            hit("site:keys:type:" + type(k).__name__)
+    twins = [t for t, ks in texts.items() if t in fields and any(type(k) is not str for k in ks)]
+    if twins:
+        hit("site:keys:non-text-key-spelt-like-a-field")
+    if any(t in fields and len(ks) > 1 for t, ks in texts.items()):
+        order = [type(k) is str for t, ks in texts.items() if t in fields and len(ks) > 1 for k in ks]
+        hit("site:keys:text-and-non-text-key-of-one-spelling:" + ("text-first" if order[0] else "text-last"))
+
+
 # ----------------------------------------------------------------------------- judging one sequence
 
 
@@ -131,6 +178,18 @@ def judge_seq(case, obs, model_lines=None, hit=None):
 
     `model_lines`, when given, receives (step index, model request line, observed value) for every judged step."""
     ref = Ref()
+    objs = {}
+
+    def step_data(st):
+        """The dictionary a step hands over: a new one, or the object an earlier step used, edited (use -> mutate -> use)."""
+        if "dict_id" not in st:
+            return step_dict(st)
+        if st["dict_id"] in objs:
+            hit("site:dict-object-handed-over-again-after-edits")
+            return apply_edits(objs[st["dict_id"]], st)
+        objs[st["dict_id"]] = step_dict(st)
+        return objs[st["dict_id"]]
+
     if isinstance(obs, dict) and "died" in obs:
         return (len(case["steps"]) - 1, "terminated the interpreter (exit status %s)" % obs["died"], None)
     if len(obs) != len(case["steps"]):
@@ -155,10 +214,11 @@ def judge_seq(case, obs, model_lines=None, hit=None):
                 rows = [list(r) for r in zip(*st["cols"])] if st["cols"] else []
                 ref.frames[st["id"]] = {"names": list(st["names"]), "rows": rows, "lazy": True, "dead": False, "arrow": True}
         elif op == "dicts":
-            first = st["dicts"][0]
+            ds = [plain_dict(d) for d in st["dicts"]]
+            first = ds[0]
             names = [str(k) for k in first]
-            want = [[d.get(k) for k in first] for d in st["dicts"]]
-            hit("site:judged:dicts")
+            want = [[d.get(k) for k in first] for d in ds]
+            hit("site:judged:dicts" + (":non-text-keys" if any(type(k) is not str for d in ds for k in d) else ""))
             if "raises" in ob:
                 return (i, "DataFrame(dictionaries) raised %s" % ob["raises"], want)
             if ob["ok"] != want or ob.get("names") != names:
@@ -168,25 +228,29 @@ def judge_seq(case, obs, model_lines=None, hit=None):
             if "ok" in ob:
                 ref.classes[st["id"]] = {"fields": [str(f) for f in st["fields"]], "tuples_only": bool(st.get("tuples_only"))}
         elif op == "row":
-            if "dict" in st:
+            if has_dict(st):
                 if cl["tuples_only"]:
                     continue  # a tuples-only class is not meant to take dictionaries
-                want = [st["dict"].get(f) for f in cl["fields"]]
+                data = step_data(st)
+                want = [data.get(f) for f in cl["fields"]]
+                key_classes(data, cl["fields"], hit)
                 if model_lines is not None:
-                    model_lines.append((i, "C10 rownew " + wire.line(cl["fields"], False, st.get("dict_kind", "dict") == "dict", st["dict"]), ob))
+                    model_lines.append((i, "C10 rownew " + wire.line(cl["fields"], False, st.get("dict_kind", "dict") == "dict", model_items(data)), ob))
             else:
                 want = list(st["tuple"])
-            hit("site:judged:row:" + (st.get("dict_kind", "dict") if "dict" in st else "tuple"))
+            hit("site:judged:row:" + (st.get("dict_kind", "dict") if has_dict(st) else "tuple"))
             if "raises" in ob or ob["ok"] != want:
                 return (i, "extracted fields differ from the dictionary's values / null (Row(dict) through a class made by Row.create_class)"
-                        if "dict" in st else "a row built from a tuple is not that tuple", want)
+                        if has_dict(st) else "a row built from a tuple is not that tuple", want)
         elif op == "append":
             if fr["lazy"] or fr["dead"]:
                 continue
-            if "dict" in st:
-                want = [st["dict"].get(f) for f in fr["names"]]
+            if has_dict(st):
+                data = step_data(st)
+                want = [data.get(f) for f in fr["names"]]
+                key_classes(data, fr["names"], hit)
                 if model_lines is not None:
-                    model_lines.append((i, "C10 rownew " + wire.line(fr["names"], False, True, st["dict"]), ob))  # append copies a mapping itself
+                    model_lines.append((i, "C10 rowappend " + wire.line(fr["names"], st.get("dict_kind", "dict") == "dict", model_items(data)), ob))
             else:
                 want = list(st["tuple"])
             hit("site:judged:append")
@@ -238,6 +302,11 @@ def judge_seq(case, obs, model_lines=None, hit=None):
             dws = [spec_data_width([r[k] for r in t]) for k in range(len(fr["names"]))]
             # the type row (when shown): the type's name for a typed column, one character for a plain list of names
             show_types = bool(st.get("types")) and via in ("ascii", "display")   # str(frame) and markdown show no type row
+            if show_types and fr.get("arrow"):
+                # a frame converted from arrow carries a typed schema the harness did not choose: the width of its type row
+                # is not known here (the data widths are still compared with the model below when no type row is shown)
+                hit("site:display:arrow-frame-with-type-row-not-judged")
+                continue
             tws = [(len(t_) if fr.get("rs") else 1) if show_types else 0 for t_ in (fr.get("rs") or fr["names"])]
             want = [min(mcw, max(len(nm), tw, dw)) for nm, tw, dw in zip(fr["names"], tws, dws)]
             hit("site:display:schema:%s:%s" % ("typed" if fr.get("rs") else "names", "types-shown" if show_types else "types-hidden"))
@@ -304,7 +373,7 @@ def model_agrees(line, mo, ob):
         if m[0] == "oob":
             return False
         return "ok" in ob and ob["ok"] == m[1]
-    if line.startswith("C10 rownew"):
+    if line.startswith("C10 rownew") or line.startswith("C10 rowappend"):
         return m[0] == "some" and ob.get("ok") == m[1]
     if line.startswith("C10 dwidths"):
         want = [None if dw is None else min(ob["mcw"], max(len(nm), tw, dw)) for nm, tw, dw in zip(ob["names"], ob.get("tws") or [0] * len(ob["names"]), m[0])]
@@ -640,6 +709,127 @@ def random_seq(rng, tag):
     return {"fn": "seq", "kind": kind, "steps": steps}
 
 
+# keys that are not text, each next to the text `str(key)` gives: a field name spelt like the key must be looked up as
+# the *text* (the definition is `data.get(field)`), never as the key that happens to print the same
+def _K(kind, v=None):
+    return {"__key__": kind, "v": v}
+
+
+KEY_TWINS = [
+    ("1", _K("int", 1)), ("0", _K("int", 0)), ("-1", _K("int", -1)), ("True", _K("bool", True)), ("False", _K("bool", False)),
+    ("None", _K("none")), ("1.5", _K("float", 1.5)), ("1.0", _K("float", 1.0)), ("nan", _K("float", "nan")), ("b'a'", _K("bytes", "61")),
+    ("(1, 2)", _K("tuple", [_K("int", 1), _K("int", 2)])), ("()", _K("tuple", [])), ("('a',)", _K("tuple", ["a"])),
+    ("2024-01-01", _K("date", "2024-01-01")), ("a", _K("strother", "a")), ("é", _K("strother", "é")), ("b", _K("strsame", "b")),
+    ("10", _K("int", 10)), ("", _K("strother", "")),
+]
+KEY_VALUES = ["text value", "number value", 0, None, 2.5, False, "", [1], "é"]
+
+
+def _items_for(rng, fields, extra):
+    """[[key, value], …]: for some fields the text key, for some a key that is *not* text but prints like the field, for
+    some both (in either order), plus keys that belong to no field."""
+    twin = dict(KEY_TWINS)
+    items = []
+    for f in dict.fromkeys(fields):
+        r = rng.random()
+        t = twin.get(f)
+        if t is None:
+            if r < 0.7:
+                items.append([f, rng.choice(KEY_VALUES)])
+            continue
+        if r < 0.3:
+            items.append([t, "under the key %s" % json.dumps(t, sort_keys=True)[:30]])
+        elif r < 0.65:
+            pair = [[f, "under the text %r" % f], [t, "under the key that prints %r" % f]]
+            if rng.random() < 0.5:
+                pair.reverse()
+            items += pair
+        elif r < 0.85:
+            items.append([f, rng.choice(KEY_VALUES)])
+    for e in extra:
+        if rng.random() < 0.4:
+            items.append([e, rng.choice(KEY_VALUES)])
+    if rng.random() < 0.3:
+        items.append([rng.choice(KEY_TWINS)[1], "stray"])
+    if rng.random() < 0.5:
+        rng.shuffle(items)
+    return items
+
+
+def keys_seq(rng, tag):
+    """One session about dictionaries whose keys are not all text, through every caller of the extraction helper:
+    `Row(dict)` through a class, `DataFrame.append`, `DataFrame(dictionaries)` (+ append), then a collect / a display
+    of what was stored (use -> mutate -> use again)."""
+    steps = []
+    n = [0]
+
+    def new(prefix):
+        n[0] += 1
+        return "%sk%s_%d" % (prefix, tag, n[0])
+
+    width = rng.choice([1, 1, 2, 3, 4])
+    fields = [t for t, _ in rng.sample(KEY_TWINS, width)]
+    if rng.random() < 0.3:
+        fields[rng.randrange(width)] = "plain_%s" % tag
+    if width >= 2 and rng.random() < 0.15:
+        fields[-1] = fields[0]
+    extra = ["other", "zz"]
+    how = rng.choice(["class", "class", "frame", "frame", "dicts", "mixed"])
+    if how in ("class", "mixed"):
+        c = new("c")
+        steps.append({"op": "class", "id": c, "fields": list(fields), "tuples_only": False, "via": rng.choice(["list", "tuple"])})
+        for _ in range(rng.randint(1, 4)):
+            steps.append(_dict_kind(rng, {"op": "row", "cls": c, "items": _items_for(rng, fields, extra)}))
+        if rng.random() < 0.3:
+            steps.append({"op": "row", "cls": c, "dict": _dict_for(rng, fields, extra)})
+        if rng.random() < 0.5:
+            # use -> mutate -> use again: the same dictionary object, edited between two calls
+            did = new("d")
+            steps.append(_dict_kind(rng, {"op": "row", "cls": c, "items": _items_for(rng, fields, extra), "dict_id": did}))
+            edits = [[k, "edited"] for k in _items_for(rng, fields, extra)[:2] for k in [k[0]]]
+            steps.append({"op": "row", "cls": c, "items": [], "dict_id": did, "set": edits or [[fields[0], "edited"]],
+                          "del": [fields[-1]] if rng.random() < 0.4 else []})
+            if rng.random() < 0.5:
+                steps.append({"op": "row", "cls": c, "items": [], "dict_id": did, "set": [[fields[0], "edited again"]]})
+    if how in ("frame", "mixed"):
+        f = new("f")
+        steps.append({"op": "frame", "id": f, "names": list(fields), "rows": [[rng.choice([0, "v", None]) for _ in fields] for _ in range(rng.randint(0, 2))], "lazy": False})
+        for _ in range(rng.randint(1, 3)):
+            steps.append(_dict_kind(rng, {"op": "append", "frame": f, "items": _items_for(rng, fields, extra)}))
+            if rng.random() < 0.4:
+                steps.append({"op": "collect", "frame": f, "cols": [rng.choice(fields)], "ckind": "single"})
+        if rng.random() < 0.4:
+            steps.append({"op": "display", "frame": f, "limit": rng.choice([0, 2, 10]), "tt": True, "via": rng.choice(["ascii", "display", "markdown"])})
+    if how in ("dicts", "mixed"):
+        f = new("f")
+        ds = [{"__items__": _items_for(rng, fields, extra)} for _ in range(rng.randint(1, 3))]
+        if ds[0]["__items__"]:
+            steps.append({"op": "dicts", "id": f, "dicts": ds})
+            # the frame's columns are named `str(key)`: a record keyed like the first one is looked up by those *names*
+            steps.append({"op": "append", "frame": f, "items": ds[0]["__items__"]})
+            steps.append({"op": "append", "frame": f, "items": _items_for(rng, fields, extra)})
+            steps.append({"op": "collect", "frame": f, "cols": [0], "ckind": "single", "limit": rng.choice(["none", 1, -1])})
+    return {"fn": "seq", "kind": "keys", "steps": steps}
+
+
+def exhaustive_keys():
+    """Every dictionary over the keys '1', 1, 'None', None with at most three entries in every insertion order, through
+    classes for every field tuple of length 0..2 over '1', 'None', 'x' (one session per class)."""
+    import itertools
+
+    pool = ["1", _K("int", 1), "None", _K("none")]
+    vals = {0: "text 1", 1: "number 1", 2: "text None", 3: "the null key"}
+    out = []
+    for k in range(0, 3):
+        for fs in itertools.product(["1", "None", "x"], repeat=k):
+            steps = [{"op": "class", "id": "cX", "fields": list(fs), "tuples_only": False, "via": "tuple"}]
+            for size in range(0, 4):
+                for idx in itertools.permutations(range(4), size):
+                    steps.append({"op": "row", "cls": "cX", "items": [[pool[j], vals[j]] for j in idx]})
+            out.append({"fn": "seq", "kind": "keys-exhaustive", "steps": steps})
+    return out
+
+
 def seeded_corpus():
     """Hand-written sessions for the classes of call-site defect this layer exists for."""
     fields = ["c10_left", "c10_right", "c10_absent"]
@@ -695,6 +885,27 @@ def seeded_corpus():
             {"op": "frame", "id": "fR", "names": ["a", "ab", "a "], "rows": dup, "lazy": False},
             {"op": "display", "frame": "fR", "limit": 3, "tt": False, "via": "ascii"},
             {"op": "collect", "frame": "fR", "cols": ["a ", "ab"], "ckind": "list"},
+        ]},
+        {"fn": "seq", "kind": "corpus", "steps": [
+            # keys that are not text but print like a field name: the field is looked up as text
+            {"op": "class", "id": "cK", "fields": ["1", "True", "None", "b'a'", "a", "(1, 2)"], "tuples_only": False, "via": "list"},
+            {"op": "row", "cls": "cK", "items": [["1", "text one"], [_K("int", 1), "number one"]]},
+            {"op": "row", "cls": "cK", "items": [[_K("int", 1), "number one"], ["1", "text one"]]},
+            {"op": "row", "cls": "cK", "items": [[_K("int", 1), "number one"], ["a", 2]]},
+            {"op": "row", "cls": "cK", "items": [[_K("bool", True), "the flag"], [_K("none"), "nothing"], [_K("bytes", "61"), "bytes"],
+                                                 [_K("strother", "a"), "another a"], [_K("tuple", [_K("int", 1), _K("int", 2)]), "a pair"]]},
+            {"op": "row", "cls": "cK", "items": [[_K("strsame", "a"), "found: equal to the text"], ["None", "text"], [_K("none"), "null key"]], "dict_kind": "ordered"},
+            {"op": "row", "cls": "cK", "items": [["a", "first"], ["1", "one"]], "dict_id": "dK"},
+            {"op": "row", "cls": "cK", "items": [], "dict_id": "dK", "set": [["a", "second"], [_K("int", 1), "number"]]},
+            {"op": "row", "cls": "cK", "items": [], "dict_id": "dK", "del": ["a"], "set": [["True", "text flag"]]},
+            {"op": "frame", "id": "fK", "names": ["1", "a"], "rows": [], "lazy": False},
+            {"op": "append", "frame": "fK", "items": [[_K("int", 1), "number one"], ["a", "x"]]},
+            {"op": "append", "frame": "fK", "items": [["1", "text one"], [_K("int", 1), "number one"]], "dict_kind": "ordered"},
+            {"op": "collect", "frame": "fK", "cols": ["1"], "ckind": "single"},
+            {"op": "dicts", "id": "fN", "dicts": [{"__items__": [[_K("int", 1), "a"], ["n", 0]]}, {"__items__": [[_K("int", 1), "b"]]}]},
+            {"op": "append", "frame": "fN", "items": [[_K("int", 1), "c"], ["n", 1]]},
+            {"op": "append", "frame": "fN", "items": [["1", "d"]]},
+            {"op": "collect", "frame": "fN", "cols": [0, 1], "ckind": "list"},
         ]},
         {"fn": "seq", "kind": "corpus", "steps": [
             {"op": "frame", "id": "fL", "names": ["a", "b"], "rows": tail, "lazy": True},
